@@ -5,6 +5,7 @@ from pyvc.values import *
 from pyvc import values as V
 from pyvc.interp import RaiseEx, LoopSpec
 from pyvc.libmodels import _EmptyDeque
+from pyvc import smt
 from . import aw
 from .aw import World, ASYNC, CLOCK, Ev
 from .async_node import mk_node_world, mk_step_state, NodeStepCounter, COMMON_SUMM
@@ -157,7 +158,9 @@ class ConnReset(Unit):
         ist = Opaque("input_state")
         ctx.call(self_obj=c, args=[z3.Const("rng", Leaf), ist])
         qs = ["q_msgs", "q_ts_input", "q_zip_delay", "q_zip_msgs", "q_ts_max", "q_expected_select", "q_expected_ts_max", "q_grouped", "q_ts_next_step", "q_sample"]
-        ctx.ensure("C03/C05 new episode: every queue is a fresh empty deque", z3.BoolVal(all(isinstance(c.f[q], _EmptyDeque) for q in qs) and len({id(c.f[q]) for q in qs}) == len(qs)))
+        empty = lambda q: z3.BoolVal(True) if isinstance(q, _EmptyDeque) else (toz(q.length()) == 0 if hasattr(q, "length") else z3.BoolVal(isinstance(q, (list, tuple)) and len(q) == 0))
+        ctx.ensure("C03/C05 new episode: every queue is empty (a new deque or the old one cleared) and no two queues share an object",
+                   z3.And(z3.BoolVal(len({id(c.f[q]) for q in qs}) == len(qs)), *[empty(c.f[q]) for q in qs]), hyps=lambda h: not smt._contains_quant(h))
         ctx.ensure("C03/C05 new episode: grouping tick 0, FIFO register 0, no record, state READY",
                    z3.And(toz(c.f["_tick"]) == 0, toz(c.f["_prev_recv_sc"]) == 0, z3.BoolVal(c.f["_record"] is None and c.f["_record_messages"] is None and c.f["_state"] == ASYNC["READY"]),
                           aw.same(c.f["_dist_state"], z3.Const("fresh_dist_state", Leaf)),
@@ -198,7 +201,8 @@ class NodeReset(Unit):
         ex.lib.ns["concurrent.futures"].entries["Future"]    # (present)
         ctx.call(self_obj=n, args=[gs, CLOCK["SIMULATED"], z3.Real("rtf")])
         qs = ["q_tick", "q_ts_scheduled", "q_ts_end_prev", "q_ts_start", "q_rng_step", "q_sample"]
-        ctx.ensure("C03/C05 new episode: fresh empty queues on the node", z3.BoolVal(all(isinstance(n.f[q], _EmptyDeque) for q in qs) and len({id(n.f[q]) for q in qs}) == len(qs)))
+        empty = lambda q: z3.BoolVal(True) if isinstance(q, _EmptyDeque) else (toz(q.length()) == 0 if hasattr(q, "length") else z3.BoolVal(isinstance(q, (list, tuple)) and len(q) == 0))
+        ctx.ensure("C03/C05 new episode: every queue of the node is empty (new or cleared), no two share an object", z3.And(z3.BoolVal(len({id(n.f[q]) for q in qs}) == len(qs)), *[empty(n.f[q]) for q in qs]))
         ctx.ensure("C03/C05 new episode: episode counter + 1, tick 0, drift 0, phase taken from the node, no record, state READY",
                    z3.And(toz(n.f["_eps"]) == eps0 + 1, toz(n.f["_tick"]) == 0, toz(n.f["_phase_scheduled"]) == 0, toz(n.f["_phase"]) == n.f["node"].f["phase"], toz(n.f["_discarded"]) == 0,
                           z3.BoolVal(n.f["_record"] is None and n.f["_record_steps"] is None and n.f["_state"] == ASYNC["READY"] and n.f["_clock"] is CLOCK["SIMULATED"])))
